@@ -10,6 +10,7 @@ from ..gen import random_plan, rand_fraction, enc_amount
 from ..models import si_table as SI
 from ..models.world import predefined_world, add_money
 from ..oracle import brief
+from ..ops import derived
 
 RULE = ("every ordered pair of distinct predefined types (+ Money) x "
         "{+,-,<,<=,>,>=,==,!=}; every type x six kinds of plain number x "
@@ -127,9 +128,11 @@ def same_type_sub(chk, rng, w, wid, plan=None):
                   for _ in range(3))
     k = rand_fraction(rng, small=True, allow_zero=False)
     kinds = ("D", "F", "int")
-    steps = [{"id": "a", "k": "a", "e": Q(enc_amount(rng, xa, kinds)[0], sa)},
-             {"id": "b", "k": "b", "e": Q(enc_amount(rng, xb, kinds)[0], sb)},
-             {"id": "c", "k": "c", "e": Q(enc_amount(rng, xc, kinds)[0], sc)},
+    mk = lambda x, s_: derived(                             # noqa: E731
+        rng, Q(enc_amount(rng, x, kinds)[0], s_), s_)
+    steps = [{"id": "a", "k": "a", "e": mk(xa, sa)},
+             {"id": "b", "k": "b", "e": mk(xb, sb)},
+             {"id": "c", "k": "c", "e": mk(xc, sc)},
              {"k": "a+b", "e": OP("+", V("a"), V("b"))},
              {"k": "b+a", "e": OP("+", V("b"), V("a"))},
              {"k": "a-b", "e": OP("-", V("a"), V("b"))},
